@@ -175,6 +175,13 @@ def inject(rng, lines):
         # a number the analyzer cannot know: loaded from memory
         new = L[:i] + [("    lw a7, 0(gp)", "injected")] + L[i + 1:]
         out.append(("unknown-ecall", new, ("unknown-ecall", {i + 1}, None)))
+    for i in rng.sample(a7s, min(2, len(a7s))):
+        # ... or computed from a register nothing is known about, through every way of writing a copy (an
+        # R-type with the zero register on one side is a copy, not the constant 0)
+        form = rng.choice(["add a7, zero, {r}", "add a7, {r}, zero", "or a7, x0, {r}", "sub a7, {r}, zero", "xor a7, {r}, x0",
+                           "mv a7, {r}", "addi a7, {r}, 0", "sll a7, {r}, zero"]).format(r=rng.choice(["gp", "tp"]))
+        new = L[:i] + [("    " + form, "injected")] + L[i + 1:]
+        out.append(("unknown-ecall", new, ("unknown-ecall", {i + 1}, None)))
     # 11: straight-line code nothing can reach
     rets = find(L, lambda t, tag: tag in ("ret", "jump", "exit"))
     for i in rng.sample(rets, min(3, len(rets))):
